@@ -146,10 +146,38 @@ class Tr:
         raise Unsupported('not an Option: %r' % (v,))
 
     # ------------------------------------------------------------- constants
+    def const_int(self, e, impl):
+        k = e[0]
+        if k == 'num':
+            return e[1]
+        if k in ('paren',):
+            return self.const_int(e[1], impl)
+        if k == 'cast':
+            v = self.const_int(e[1], impl)
+            return v % (2 ** INT_W[e[2]]) if e[2] in INT_W else None
+        if k == 'path':
+            p = e[1]
+            i2 = impl if (len(p) == 1 or p[0] == 'Self') else p[-2]
+            for key in ((i2, p[-1]), (None, p[-1])):
+                if key in self.c['consts']:
+                    return self.const_int(self.c['consts'][key][1], key[0])
+            return None
+        if k == 'bin':
+            a, b = self.const_int(e[2], impl), self.const_int(e[3], impl)
+            if a is None or b is None:
+                return None
+            ops = {'+': lambda: a + b, '-': lambda: a - b if a >= b else None, '*': lambda: a * b, '<<': lambda: a << b,
+                   '>>': lambda: a >> b, '|': lambda: a | b, '&': lambda: a & b}
+            return ops[e[1]]() if e[1] in ops else None
+        return None
+
     def const(self, impl, name):
         for key in ((impl, name), (None, name)):
             if key in self.c['consts']:
                 ty, e = self.c['consts'][key]
+                ci = self.const_int(e, key[0])
+                if ci is not None:
+                    return Pure(str(ci)), ty
                 v = self.pure_expr(e, {}, impl)
                 return v, ty
         raise Unsupported('constant %s::%s' % (impl, name))
@@ -173,6 +201,8 @@ class Tr:
             return e[2] if e[2] in INT_W else None
         if k == 'path':
             p = e[1]
+            if len(p) == 2 and p[0] in INT_W and p[1] == 'MAX':
+                return p[0]
             if len(p) == 1:
                 return env.get('__ty', {}).get(p[0])
             if p[0] == 'Self' or len(p) == 2:
@@ -280,6 +310,8 @@ class Tr:
             x, y = paren(self.text(vs[0])), paren(self.text(vs[1]))
             if op == '-':
                 d = self.g.fresh('d')
+                if '__w' in env2:      # encoder: outcomes instead of reader programs
+                    return 'if %s <=? %s then %s else Panic PkOverflow' % (y, x, paren(k(Pure('(%s - %s)' % (x, y)), env2)))
                 return 'bind (usub %s %s) (fun %s => %s)' % (x, y, d, k(Pure(d), env2))
             if op == '>':
                 return k(Pure('(%s <? %s)' % (y, x)), env2)
@@ -294,6 +326,9 @@ class Tr:
 
     def ev_path(self, e, env, k):
         p = e[1]
+        PRIM = {('u8', 'MAX'): 255, ('u16', 'MAX'): 65535, ('u32', 'MAX'): 2 ** 32 - 1, ('u64', 'MAX'): 2 ** 64 - 1, ('usize', 'MAX'): 2 ** 64 - 1}
+        if len(p) == 2 and (p[0], p[1]) in PRIM:
+            return k(Pure(str(PRIM[(p[0], p[1])])), env)
         if len(p) == 1:
             n = p[0]
             if n in env:
@@ -325,8 +360,13 @@ class Tr:
                 return k(v.fields[e[2]], env2)
             if isinstance(v, Ctor) and v.name == 'Tuple' and e[2].isdigit():
                 return k(v.args[int(e[2])], env2)
-            if e[2] == 'data' and isinstance(v, Pure) and e[1][0] == 'path' and e[1][1] == ['self']:
+            if (e[2] == 'data' and isinstance(v, Pure) and e[1][0] == 'path' and e[1][1] == ['self']
+                    and env2.get('__impl') in self.cfg.word_structs):
                 return k(v, env2)
+            bt = self.sty(e[1], env2)
+            acc2 = self.cfg.field_access_impl.get((bt, e[2])) if bt else None
+            if acc2 and isinstance(v, Pure):
+                return k(Pure('(%s %s)' % (acc2, paren(v.text)) if acc2 != 'ID' else v.text), env2)
             acc = self.cfg.field_access.get(e[2])
             if acc and isinstance(v, Pure):
                 return k(Pure('(%s %s)' % (acc, paren(v.text))), env2)
@@ -460,12 +500,39 @@ class Tr:
             raise Unsupported('match on %r' % (x,))
         return self.on(v, leaf)
 
+    def sty(self, e, env):
+        """Rust type (text) of a path / field expression, as far as declared types tell"""
+        if e[0] in ('ref', 'paren'):
+            return self.sty(e[1], env)
+        if e[0] == 'un' and e[1] == '*':
+            return self.sty(e[2], env)
+        if e[0] == 'path' and len(e[1]) == 1:
+            if e[1][0] == 'self':
+                return env.get('__impl')
+            t = env.get('__ty', {}).get(e[1][0])
+            return t.replace(' ', '') if t else None
+        if e[0] == 'field':
+            bt = self.sty(e[1], env)
+            st = self.c['structs'].get(bt)
+            if st:
+                ft = dict(st).get(e[2])
+                return ft.replace(' ', '') if ft else None
+        return None
+
     def refine(self, pat, v, env):
         """sub-pattern inside Ok(..)/Some(..): -> env | None (cannot match) | callable(kyes, kno) for a run-time test"""
         if pat[0] in ('pvar',):
-            return dict(env, **{pat[1]: v})
+            env2 = dict(env, **{pat[1]: v})
+            if env.get('__bind_ty'):
+                env2['__ty'] = dict(env.get('__ty', {}), **{pat[1]: env['__bind_ty']})
+            return env2
         if pat[0] == 'pwild':
             return env
+        if pat[0] == 'ptuple' and len(pat[1]) == 2 and all(p[0] == 'pvar' for p in pat[1]):
+            if isinstance(v, Ctor) and v.name == 'Tuple':
+                return dict(env, **{pat[1][0][1]: v.args[0], pat[1][1][1]: v.args[1]})
+            t_ = paren(self.text(v))
+            return dict(env, **{pat[1][0][1]: Pure('(fst %s)' % t_), pat[1][1][1]: Pure('(snd %s)' % t_)})
         if pat[0] == 'pctor':
             t = self.cfg.ctor_test.get(pat[1][-1])
             if t is not None:
@@ -491,7 +558,9 @@ class Tr:
                     b = self.ev(els, env2, k) if els is not None else k(Ctor('Unit'), env2)
                     return 'if %s then %s else %s' % (cond, paren(a), paren(b))
                 return self.ev(scrut, env, f)
-        return self.ev(scrut, env, lambda v, env2: self.match_arms(v, arms, env2, k))
+        st = self.sty(scrut, env)
+        bind_ty = st[7:-1] if st and st.startswith('Option<') and st.endswith('>') else None
+        return self.ev(scrut, env, lambda v, env2: self.match_arms(v, arms, dict(env2, __bind_ty=bind_ty), k))
 
     def ev_try(self, e, env, k):
         def f(v, env2):
@@ -532,6 +601,12 @@ class Tr:
     def ev_macro(self, e, env, k):
         if e[1] == 'vec':
             return self.evs(e[2], env, lambda vs, env2: k(Pure('[' + '; '.join(self.text(v) for v in vs) + ']'), env2))
+        if e[1] == 'assert' and e[2]:
+            return self.ev(e[2][0], env, lambda v, env2: 'if %s then %s else Panic PkAssert' % (self.text(v), paren(k(Ctor('Unit'), env2))))
+        if e[1] == 'matches' and len(e[2]) == 2:
+            t_ = self.cfg.matches_test(self, e[2][1])
+            if t_ is not None:
+                return self.ev(e[2][0], env, lambda v, env2: k(Pure('(' + t_ % paren(self.text(v)) + ')'), env2))
         raise Unsupported('macro %s!' % e[1])
 
     def ev_call(self, e, env, k):
@@ -566,8 +641,10 @@ class Tr:
             return self.evs(args, env, g)
         if len(p) >= 2 and p[-1] == 'from' and p[-2] in self.cfg.identity_from:
             return self.evs(args, env, lambda vs, env2: k(vs[0], env2))
-        if len(p) >= 2 and p[-1] == 'default' and p[-2] in self.cfg.defaults:
-            return k(Pure(self.cfg.defaults[p[-2]]), env)
+        if len(p) >= 2 and p[-1] == 'default':
+            i2 = env.get('__impl') if p[-2] == 'Self' else p[-2]
+            if i2 in self.cfg.defaults:
+                return k(Pure(self.cfg.defaults[i2]), env)
         # call of a crate function: inline
         impl = p[-2] if len(p) >= 2 else None
         if impl == 'Self':
@@ -575,7 +652,7 @@ class Tr:
         impl = self.cfg.impl_alias.get((env.get('__impl'), impl), impl)
         return self.call_fn(impl, name, args, env, k)
 
-    def call_fn(self, impl, name, args, env, k, self_val=None):
+    def call_fn(self, impl, name, args, env, k, self_val=None, self_var=None):
         hook = self.cfg.call_hooks.get((impl, name))
         if hook is not None and not self.no_hooks.get((impl, name)):
             return hook(self, args, env, k)
@@ -600,14 +677,19 @@ class Tr:
                 inner[pn] = v
                 if pty:
                     inner['__ty'][pn] = pty.replace('&', '').replace('mut', '').strip()
-            # the reader the callee works on is the caller's current reader (or the sub-reader handed over)
-            inner['__reader'] = env2.get('__reader')
-            inner['__ret'] = lambda v, env3: k(v, env2)
-            self.depth += 1
-            try:
-                return self.block(body, inner, lambda v, env3: k(v, env2))
-            finally:
-                self.depth -= 1
+            if '__w' in env2:
+                inner['__w'] = env2['__w']
+            mut_self = bool(params) and params[0][0] == 'self' and params[0][1] == '&mut'
+
+            def back(env3):
+                out = env2
+                if '__w' in env3:
+                    out = dict(out, __w=env3['__w'])
+                if mut_self and self_var is not None:
+                    out = dict(out, **{self_var: env3['self']})
+                return out
+            inner['__ret'] = lambda v, env3: k(v, back(env3))
+            return self.block(body, inner, lambda v, env3: k(v, back(env3)))
         return self.evs(args, env, go)
 
     # reader receivers: `reader`, or a sub-reader variable
@@ -640,8 +722,29 @@ class Tr:
             if name == 'subreader' and len(args) == 1:
                 return self.ev(args[0], env, lambda v, env2: k(Ctor('SubReader', [v]), env2))
             raise Unsupported('reader method %s' % name)
+        if recv[0] == 'path' and len(recv[1]) == 1 and isinstance(env.get(recv[1][0]), Ctor) and env[recv[1][0]].name == 'Writer':
+            wr = {'write_u8': 'w_u8', 'write_u16_be': 'w_u16', 'write_u32_be': 'w_u32', 'write_u64_be': 'w_u64', 'write_bytes': 'w_bytes'}
+            if name in wr and len(args) == 1:
+                return self.ev(args[0], env, lambda v, env2: k(Ctor('Unit'), dict(env2, __w='(%s %s %s)' % (wr[name], paren(self.text(v)), env2['__w']))))
+            if name == 'len' and not args:
+                return k(Pure('(w_len %s)' % env['__w']), env)
+            if name == 'write_bytes_at' and len(args) == 2:
+                def g(vs, env2):
+                    w2 = self.g.fresh('w')
+                    return 'obind (w_bytes_at %s %s %s) (fun %s => %s)' % (paren(self.text(vs[0])), paren(self.text(vs[1])), env2['__w'], w2,
+                                                                         k(Ctor('Unit'), dict(env2, __w=w2)))
+                return self.evs(args, env, g)
+            raise Unsupported('writer method %s' % name)
+        if name == 'is_some' and not args:
+            return self.ev(recv, env, lambda v, env2: k(self.vmap(v, lambda x: Pure('(is_some %s)' % paren(self.text(x)))), env2))
+        if name == 'to_be_bytes' and not args:
+            ty = self.ity(recv, env)
+            f = {'u16': 'be16', 'u32': 'be32', 'u64': 'be64'}.get(ty)
+            if f is None:
+                raise Unsupported('to_be_bytes of %s' % ty)
+            return self.ev(recv, env, lambda v, env2: k(self.vmap(v, lambda x: Pure('(%s %s)' % (f, paren(self.text(x))))), env2))
         # pure / combinator methods
-        ident = ('borrow', 'to_owned', 'as_bytes', 'to_vec', 'clone', 'iter', 'into_iter', 'as_ref', 'deref_mut', 'into')
+        ident = ('borrow', 'to_owned', 'as_bytes', 'to_vec', 'clone', 'iter', 'into_iter', 'as_ref', 'deref_mut')
         if name in ident and not args:
             return self.ev(recv, env, k)
         if name == 'len' and not args:
@@ -728,7 +831,8 @@ class Tr:
                 impl = self.cfg.value_impl(self, recv, v, env2)
             if impl is None or (impl, name) not in self.c['fns']:
                 raise Unsupported('method %s on %r' % (name, v))
-            return self.call_fn(impl, name, args, env2, k, self_val=v)
+            sv = recv[1][0] if recv[0] == 'path' and len(recv[1]) == 1 else None
+            return self.call_fn(impl, name, args, env2, k, self_val=v, self_var=sv)
         return self.ev(recv, env, f)
 
     def ev_index(self, e, env, k):
@@ -748,6 +852,16 @@ class Tr:
                     raise Unsupported('assignment %s' % op)
                 return k(Ctor('Unit'), env3)
             return self.ev(rhs, env, f)
+        if (lhs[0] == 'field' and lhs[1] == ('path', ['self']) and lhs[2] == 'data' and isinstance(env.get('self'), Pure)
+                and env.get('__impl') in self.cfg.word_structs):
+            ops = {'=': None, '|=': 'N.lor %s %s', '&=': 'N.land %s %s', '+=': '%s + %s'}
+            if op not in ops:
+                raise Unsupported('assignment %s' % op)
+            def g(v, env2):
+                cur = paren(self.text(env2['self']))
+                nv = self.text(v) if op == '=' else '(' + ops[op] % (cur, paren(self.text(v))) + ')'
+                return k(Ctor('Unit'), dict(env2, self=Pure(nv)))
+            return self.ev(rhs, env, g)
         raise Unsupported('assignment target')
 
     def ev_whilelet(self, e, env, k):
@@ -783,10 +897,32 @@ class Tr:
             def after(v, env2):
                 env3 = self.bind_pattern(pat, v, env2)
                 t = ty.strip() if ty else self.ity(init, env2)
+                if t is None and init[0] == 'call' and init[1][0] == 'path' and len(init[1][1]) >= 2 and init[1][1][-1] in ('default', 'new', 'from'):
+                    t = env2.get('__impl') if init[1][1][-2] == 'Self' else init[1][1][-2]
                 if pat[0] == 'pvar' and t:
                     env3['__ty'] = dict(env3.get('__ty', {}), **{pat[1]: t})
                 return self.stmts(rest, tail, env3, k)
             return self.ev(init, env, after)
+        if s[0] == 'expr' and '__w' in env and s[1][0] in ('if', 'iflet', 'match'):
+            MARK = chr(0)
+            changed = []
+
+            def leafk(v, env2):
+                # only the writer may differ at the end of a branch
+                for kk in set(env):
+                    if kk.startswith('__'):
+                        continue
+                    if env.get(kk) is not env2.get(kk):
+                        changed.append(kk)
+                return MARK + env2['__w'] + MARK
+            try:
+                txt = self.ev(s[1], env, leafk)
+            except Unsupported:
+                txt = None
+            if txt is not None and not changed and 'Panic' not in txt and 'obind' not in txt and MARK in txt:
+                return self.stmts(rest, tail, dict(env, __w='(' + txt.replace(MARK, '') + ')'), k)
+        if s[0] == 'expr' and s[1][0] == 'for' and self.cfg.for_hook is not None:
+            return self.cfg.for_hook(self, s[1], env, lambda v, env2: self.stmts(rest, tail, env2, k))
         if s[0] == 'expr':
             return self.ev(s[1], env, lambda v, env2: self.stmts(rest, tail, env2, k))
         raise Unsupported('statement %s' % s[0])
@@ -813,5 +949,47 @@ class Tr:
             else:
                 raise Unsupported('parameter %s of %s' % (pn, name))
         done = lambda v, env2: self.on(v, lambda x: 'Ret %s' % paren(finish(self, x)))
+        env['__ret'] = done
+        return self.block(body, env, done)
+
+    def writer_fn(self, impl, name, self_val, bind_args, total, self_ty=None):
+        """translate a `write(&self, writer)`-like function: -> Gallina text of type writer (total) or outcome writer,
+        as a function of the variable `w`"""
+        fn = self.c['fns'].get((impl, name))
+        if fn is None:
+            raise Unsupported('function %s::%s not found' % (impl, name))
+        _, fname, params, ret, body, quals = fn
+        env = {'__impl': impl, '__ty': {}, '__w': 'w'}
+        for pn, pty in params:
+            if pn == 'writer':
+                env[pn] = Ctor('Writer')
+            elif pn == 'self':
+                env['self'] = self_val
+            elif pn in bind_args:
+                env[pn] = bind_args[pn]
+                if pty:
+                    env['__ty'][pn] = pty.replace('&', '').replace('mut ', '').strip()
+            else:
+                raise Unsupported('parameter %s of %s' % (pn, name))
+        done = (lambda v, env2: env2['__w']) if total else (lambda v, env2: 'Val %s' % env2['__w'])
+        env['__ret'] = done
+        return self.block(body, env, done)
+
+    def pure_fn(self, impl, name, self_val, bind_args, leaf='%s'):
+        fn = self.c['fns'].get((impl, name))
+        if fn is None:
+            raise Unsupported('function %s::%s not found' % (impl, name))
+        _, fname, params, ret, body, quals = fn
+        env = {'__impl': impl, '__ty': {}}
+        for pn, pty in params:
+            if pn == 'self':
+                env['self'] = self_val
+            elif pn in bind_args:
+                env[pn] = bind_args[pn]
+                if pty:
+                    env['__ty'][pn] = pty.replace('&', '').strip()
+            else:
+                raise Unsupported('parameter %s of %s' % (pn, name))
+        done = lambda v, env2: self.on(v, lambda x: leaf % self.text(x))
         env['__ret'] = done
         return self.block(body, env, done)
